@@ -40,7 +40,7 @@ void init(int ntasks_max) {
     HAVE_EDGES = have_edges;
 }
 u32 num_guards() { return n_guards; }
-u32 guards_hit() { u32 c = 0; for (auto x : guard_hit) c += x; return c; }
+u32 guards_hit() { u32 c = 0; for (u32 i = 0; i < GUARD_MAX; ++i) c += guard_hit[i]; return c; }
 
 static int lang_index_of(const polyseed_lang* l) {
     for (size_t i = 0; i < liblangs.size(); ++i) if (liblangs[i] == l) return (int)i;
@@ -113,7 +113,7 @@ static void exec_op(Task* t, OpRec& rec, bool preempt) {
         break;
     }
     case OP_LOAD: {
-        u8* in = (u8*)malloc(32); memset(in, 0, 32); memcpy(in, op.data.data(), std::min<size_t>(32, op.data.size()));
+        u8* in = (u8*)malloc(32); memset(in, 0, 32); if (!op.data.empty()) memcpy(in, op.data.data(), std::min<size_t>(32, op.data.size()));
         u8 copy[32]; memcpy(copy, in, 32);
         polyseed_data** so = (polyseed_data**)malloc(sizeof(void*)); *so = SEED_SENTINEL;
         rec.bufs.push_back({in, 32, BUF_STORAGE}); rec.bufs.push_back({(const u8*)so, sizeof(void*), BUF_SEEDOUT});
@@ -146,7 +146,7 @@ static void exec_op(Task* t, OpRec& rec, bool preempt) {
     }
     case OP_DECODE: case OP_DECODEX: {
         size_t n = op.data.size();
-        char* in = (char*)malloc(n + 1); memcpy(in, op.data.data(), n); in[n] = 0;
+        char* in = (char*)malloc(n + 1); if (n) memcpy(in, op.data.data(), n); in[n] = 0;
         polyseed_data** so = (polyseed_data**)malloc(sizeof(void*)); *so = SEED_SENTINEL;
         const polyseed_lang** lo = (const polyseed_lang**)malloc(sizeof(void*)); *lo = LANG_SENTINEL;
         rec.bufs.push_back({(const u8*)in, n + 1, BUF_IN}); rec.bufs.push_back({(const u8*)so, sizeof(void*), BUF_SEEDOUT});
@@ -159,17 +159,17 @@ static void exec_op(Task* t, OpRec& rec, bool preempt) {
             const polyseed_lang* l = liblangs[op.a % nl];
             enter([&] { rec.status = polyseed_decode_explicit(in, (polyseed_coin)(op.b & 2047), l, so); });
         }
-        if (strlen(in) != n || memcmp(in, op.data.data(), n)) rec.input_modified = true;
+        if (strlen(in) != n || (n && memcmp(in, op.data.data(), n))) rec.input_modified = true;
         if (*so != SEED_SENTINEL) { rec.produced = true; rec.seed_ptr = *so; }
         free(lo); free(so); free(in);
         break;
     }
     case OP_CRYPT: {
         size_t n = op.data.size();
-        char* in = (char*)malloc(n + 1); memcpy(in, op.data.data(), n); in[n] = 0;
+        char* in = (char*)malloc(n + 1); if (n) memcpy(in, op.data.data(), n); in[n] = 0;
         rec.bufs.push_back({(const u8*)in, n + 1, BUF_IN});
         enter([&] { polyseed_crypt(seed, in); });
-        if (strlen(in) != n || memcmp(in, op.data.data(), n)) rec.input_modified = true;
+        if (strlen(in) != n || (n && memcmp(in, op.data.data(), n))) rec.input_modified = true;
         free(in);
         break;
     }
@@ -323,9 +323,10 @@ struct Checker {
         unsigned c[16]; model::pack(s, c);
         add_needles_idx(c);
     }
-    void add_needles_idx(const unsigned c[16]) {
+    void add_needles_idx(const unsigned c[16]) { add_needles_idx_n(c, 16); }
+    void add_needles_idx_n(const unsigned* c, size_t cnt) {
         bytes b64, b32, b16;
-        for (int i = 0; i < 16; ++i) {
+        for (size_t i = 0; i < cnt; ++i) {
             for (int k = 0; k < 8; ++k) b64.push_back((u8)((u64)c[i] >> (8 * k)));
             for (int k = 0; k < 4; ++k) b32.push_back((u8)(c[i] >> (8 * k)));
             for (int k = 0; k < 2; ++k) b16.push_back((u8)(c[i] >> (8 * k)));
@@ -408,7 +409,7 @@ struct Checker {
             break;
         }
         case OP_LOAD: {
-            u8 in[32]; memset(in, 0, 32); memcpy(in, op.data.data(), std::min<size_t>(32, op.data.size()));
+            u8 in[32]; memset(in, 0, 32); if (!op.data.empty()) memcpy(in, op.data.data(), std::min<size_t>(32, op.data.size()));
             AbsSeed m; int exp = model::parse(in, m);
             if (exp == ST_OK || exp == ST_CHECKSUM) add_needles_seed(m);
             if (exp == ST_OK && is_crypt_image(m)) crypt_related = true;
@@ -429,6 +430,7 @@ struct Checker {
             else if (!registry_matches) { st->add("unpredicted_registry_changed"); goto unpredicted; }
             {
                 model::Decoded d = model::decode(phrase, (unsigned)op.b & 2047, li);
+                for (auto& pv : d.partial) add_needles_idx_n(pv.data(), pv.size());
                 if (d.have_idx) { add_needles_idx(d.idx); unsigned c2[16]; memcpy(c2, d.idx, sizeof c2); c2[1] ^= (unsigned)op.b & 2047; add_needles_idx(c2); }
                 int exp = d.status;
                 if (exp == ST_OK) { add_needles_seed(d.seed); if (is_crypt_image(d.seed)) crypt_related = true; }
@@ -639,7 +641,7 @@ static RunResult run_ops(const Plan& p, const RunOpts& o) {
     RunResult r;
     LogSink log{r, o.keep_log};
     Checker ck; ck.prop = p.prop; ck.st = &r.st;
-    E.trampoline = o.w2;
+    E.trampoline = false;
     std::vector<Op> ops = p.ops;
     size_t nplan = ops.size();
     for (size_t i = 0;; ++i) {
@@ -686,6 +688,10 @@ static RunResult run_ops(const Plan& p, const RunOpts& o) {
     r.st.merge(E.stats);
     E.stats.c.clear();
     return r;
+}
+
+static void fold_seam_counts(RunResult& r) {
+    for (int k = 0; k < EV_NKINDS; ++k) if (E.seam_count[k]) { r.st.add(std::string("seam_") + EV_NAMES[k], E.seam_count[k]); E.seam_count[k] = 0; }
 }
 
 // ---- preempt mode (C20)
@@ -833,6 +839,7 @@ RunResult run_plan(const Plan& p, const RunOpts& o) {
     for (int ti = 0; ti < ntasks; ++ti) memset(tasks[ti].slots, 0, sizeof tasks[ti].slots);
     RunResult r = (p.mode == "preempt") ? run_preempt(p, o) : run_ops(p, o);
     if (r.v.found && r.v.prop.empty()) r.v.prop = p.prop;
+    fold_seam_counts(r);
     HAVE_MONITOR = have_monitor; HAVE_EDGES = have_edges;
     return r;
 }
